@@ -108,7 +108,9 @@ func (m *SubackMessage) Decode(src []byte) (int, error) {
 	if l < 0 {
 		return total, fmt.Errorf("suback/Decode: Remaining length (%d) too small for packet ID", m.remlen)
 	}
-	m.returnCodes = src[total : total+l]
+	// full slice expression: AddReturnCode on the decoded message must not write into
+	// the bytes that follow the packet in the caller's buffer
+	m.returnCodes = src[total : total+l : total+l]
 	total += len(m.returnCodes)
 
 	for i, code := range m.returnCodes {
